@@ -242,6 +242,16 @@ class Repo(object):
             if p:
                 self.ptyprocess_path = p
                 self._load('ptyprocess', p, fold=False)
+        if os.environ.get('VERIF_NO_CANON') != '1':
+            from . import canon
+            trees = dict((n, m.tree) for n, m in self.modules.items())
+            self.canon_hits = canon.canonicalise(trees, skip=('ptyprocess',))
+            for n, t in trees.items():
+                self.modules[n].tree = t
+        for m in self.modules.values():
+            for parent in ast.walk(m.tree):
+                for child in ast.iter_child_nodes(parent):
+                    child._parent = parent
         self._index()
         for f in self.funcs.values():
             f.repo = self
@@ -260,9 +270,6 @@ class Repo(object):
         if fold:
             tree = _Folder(name, self.pruned).visit(tree)
             ast.fix_missing_locations(tree)
-        for parent in ast.walk(tree):
-            for child in ast.iter_child_nodes(parent):
-                child._parent = parent
         sha = hashlib.sha256(src.encode('utf-8')).hexdigest()
         self.modules[name] = Module(name, path, src, tree, sha)
 
